@@ -64,7 +64,7 @@ theorem setIn_sameOut : ∀ (n : Node) (σ : St) (k : Nat) (v : Val), SameOut (s
     unfold setIn
     split
     · exact (sameOut_set_uiIn _ k v).trans (sameOut_set_inp σ k v)
-    · exact (sameOut_set_uiIn _ k v).trans (sameOut_set_inp σ k v)
+    · exact sameOut_set_inp σ k v
     · exact (setInKid_sameOut body 0 _ _ v _).trans (sameOut_set_inp σ k v)
 theorem setInKid_sameOut : ∀ (ns : List Node) (base j i : Nat) (v : Val) (σ : St), SameOut (setInKid ns base j i v σ) σ
   | [], _, _, _, _, σ => by simpa [setInKid] using SameOut.refl σ
@@ -130,8 +130,7 @@ theorem setIn_get_inp (n : Node) (σ : St) (k k' : Nat) (v : Val) :
 
 theorem setIn_get_uiIn (args body rets oh s) (σ : St) (k k' : Nat) (v : Val) :
     (setIn (.mac args body rets oh s) σ k v).get .uiIn k' =
-      if k' = k ∧ kept body rets k = true then v
-      else if k' = k ∧ link body rets k = .gone then v else σ.get .uiIn k' := by
+      if k' = k ∧ kept body rets k = true then v else σ.get .uiIn k' := by
   unfold setIn kept
   split <;> rename_i hl <;> simp [hl, setInKid_get]
 
@@ -2096,5 +2095,61 @@ theorem reach_inv (n : Node) (hwf : WF n) (hnd : NoDupH n) (σ : St) (h : Reach 
     obtain ⟨h1, h2, _, _⟩ := setOutAt_leaf o v p n _ hleaf ih.2
     exact ⟨inv_sameIn true n _ _ h2 ih.1, h1⟩
 
+
+
+/-! ## a parameter nobody uses -/
+
+theorem setIn_gone {args body rets oh s} {k : Nat} (h : link body rets k = .gone) (σ : St) (v : Val) :
+    setIn (.mac args body rets oh s) σ k v = σ.set .inp k v := by
+  simp [setIn, h]
+
+theorem resolve_unused (k : Nat) (n : Node) (a a' : Nat → Val) (acc : Nat → Nat → Val)
+    (hag : ∀ k', k' ≠ k → a k' = a' k') (hno : ∀ i : Nat, n.srcs[i]? ≠ some (Src.arg k)) :
+    resolve n a acc = resolve n a' acc := by
+  funext i
+  unfold resolve
+  cases hs : n.srcs[i]? with
+  | none => rfl
+  | some s =>
+    cases s with
+    | arg k' =>
+      simp only
+      exact hag k' (by intro e; subst e; exact hno i hs)
+    | out j o => rfl
+    | const v => rfl
+    | none => rfl
+
+theorem denoteBody_unused (k : Nat) (a a' : Nat → Val) (hag : ∀ k', k' ≠ k → a k' = a' k') :
+    ∀ (ns : List Node) (j : Nat) (acc : Nat → Nat → Val),
+    (∀ (t : Nat) (n : Node) (i : Nat), ns[t]? = some n → n.srcs[i]? ≠ some (Src.arg k)) →
+    denoteBody ns j a acc = denoteBody ns j a' acc := by
+  intro ns
+  induction ns with
+  | nil => intro j acc _; simp [denoteBody]
+  | cons n ns ih =>
+    intro j acc hno
+    simp only [denoteBody]
+    rw [resolve_unused k n a a' acc hag (fun i => hno 0 n i (by simp))]
+    exact ih (j + 1) _ (fun t m i ht => hno (t + 1) m i (by simpa using ht))
+
+/-- the value of a parameter that no child uses and that is not returned does not matter -/
+theorem denote_unused {args body rets oh s} {k : Nat} (h : link body rets k = .gone) (a a' : Nat → Val)
+    (hag : ∀ k', k' ≠ k → a k' = a' k') :
+    denote (.mac args body rets oh s) a = denote (.mac args body rets oh s) a' := by
+  obtain ⟨hkf, hno⟩ := link_gone h
+  funext r
+  simp only [denote]
+  rw [denoteBody_unused k a a' hag body 0 _ (fun t n i ht hs => hno t i (by simp [srcAt, ht, hs]))]
+  cases hr : rets[r]? with
+  | none => rfl
+  | some x =>
+    cases x with
+    | arg k' =>
+      simp only
+      apply hag k'
+      intro e; subst e
+      have := fwd_kept (body := body) (List.mem_of_getElem? hr)
+      rw [hkf] at this; cases this
+    | out j o => rfl
 
 end PwVerif.Macro
